@@ -520,6 +520,12 @@ func shape(v ssa.Value, d int) string {
 				return fmt.Sprintf("%s#%d", callee.Name(), x.Index)
 			}
 		}
+		if lk, ok := x.Tuple.(*ssa.Lookup); ok {
+			return fmt.Sprintf("lookup(%s,%s)#%d", shape(lk.X, d+1), shape(lk.Index, d+1), x.Index)
+		}
+		if ta, ok := x.Tuple.(*ssa.TypeAssert); ok {
+			return fmt.Sprintf("assert(%s,%s)#%d", shape(ta.X, d+1), core.TypeName(ta.AssertedType), x.Index)
+		}
 		return "extract"
 	case *ssa.Call:
 		name := core.CalleeName(&x.Call)
@@ -580,8 +586,8 @@ func mandatoryGuards(fn *ssa.Function, sink *ssa.BasicBlock) []string {
 		if !ok || b == sink {
 			continue
 		}
-		r0 := core.ReachAvoiding(b.Succs[0], back)[sink]
-		r1 := core.ReachAvoiding(b.Succs[1], back)[sink]
+		r0 := !back[core.Edge{From: b, Idx: 0}] && core.ReachAvoiding(b.Succs[0], back)[sink]
+		r1 := !back[core.Edge{From: b, Idx: 1}] && core.ReachAvoiding(b.Succs[1], back)[sink]
 		if r0 == r1 {
 			continue
 		}
